@@ -5,8 +5,9 @@ PROP = {
     "technique": "runtime monitoring of the real session manager on virtual time (testing/synctest) + race detector",
     "jobs": [
         job("udp-sessions", "core", "./server/", "server",
-            ["harness/core/server/c07c08_fakes_test.go", "harness/core/server/c07_sessions_test.go"],
-            "^TestVerifC07", ["udp-timelines", "udp-boundary", "udp-slowdial", "udp-endsweep", "udp-writegate"], race=True,
+            ["harness/core/server/c07c08_fakes_test.go", "harness/core/server/c07c08_wb_table_test.go",
+             "harness/core/server/c07_sessions_test.go"],
+            "^TestVerifC07", ["udp-timelines", "udp-boundary", "udp-slowdial", "udp-endsweep", "udp-writegate", "udp-bufreuse", "udp-realio"], race=True,
             timeout_quick=300, timeout_thorough=3600),
     ],
     "race_oracle": True,
@@ -33,7 +34,15 @@ PROP = {
              "only when released); while it is in flight the session is torn down by a socket read error / a failed reply "
              "send / the sweeper (idle timeout passes during the write); then 1..3 more datagrams with the same ID, with "
              "or without a datagram of another session in between, x timeouts {100,300}ms x first/second write gated x "
-             "0/2 bystanders. A case is "
+             "0/2 bystanders. bufreuse: 1 or 3 sessions are closed by the sweeper while their reply loop is stalled between a completed "
+             "socket read and the hand-over to the client (gate at SendMessage entry, or at ReadFrom exit after the copy), "
+             "then 1 / 3 / 140 new sessions are created and read replies of their own, then the stalled loops continue; "
+             "every reply the client-side IO sees must carry the ID and the bytes of one and the same socket. realio: the "
+             "real udpIOImpl (server.go) sits between the manager and the fakes; outbound dials take 0 / 1 / 9.999 / 10 / "
+             "10.001 / 12 / 40 s of virtual time and then succeed or fail (idle timeout 2 min), followed by nothing / more "
+             "traffic / a full drain, with 0/2 bystander sessions queued behind the dial; plus 40 ordinary timelines "
+             "through the real udpIOImpl; verdict by the socket census (every socket the outbound ever returned is closed "
+             "exactly once). A case is "
              "non-trivial when at least one idle expiry and at least one delivered reply occurred; distinct = distinct "
              "(timeout, script)."),
     "assumptions": [
